@@ -111,7 +111,10 @@ func (a *AnalyzedSchema) inferFromRef() error {
 		ref := a.schema.Ref.String()
 		if _, cyclic := a.visited[ref]; cyclic {
 			// this $ref leads back to a schema which is already being analyzed:
-			// nothing more can be inferred from it (a cyclic container is not a simple schema)
+			// nothing can be inferred from it (a cyclic container is not a simple schema).
+			// As for any $ref, what its siblings say is not taken into account.
+			a.inherits(&AnalyzedSchema{hasRef: true})
+
 			return nil
 		}
 
